@@ -480,6 +480,14 @@ def family_federated():
         for label, upd in country_deviations(base['countries'][i], False):
             devs.append((tag + ':' + label, (lambda u, j: (lambda s: apply_country(s, j, u)))(upd, i)))
     devs += _link_devs([('XA', 'RB'), ('RB', 'XA')])
+
+    def defcur(s_):
+        if s_['countries'][1].get('region_default_currency'):
+            return None
+        t = json.loads(json.dumps(s_))
+        t['countries'][1]['region_default_currency'] = True      # Region(model, code): the currency defaults to the federation's
+        return t
+    devs.append(('R:default-currency', defcur))
     return 'federated', base, devs
 
 
